@@ -1,0 +1,78 @@
+//go:build verif && !(js && wasm)
+// +build verif
+// +build !js !wasm
+
+package tcell
+
+import (
+	"bytes"
+
+	"github.com/gdamore/tcell/v2/terminfo"
+)
+
+// This file exists only under the "verif" build tag.  It gives a
+// verification harness synchronous access to the production input parser
+// and to the key table that prepareKeys builds; it adds no behaviour.
+
+// VerifKey is one entry of the escape sequence -> key table.
+type VerifKey struct {
+	Key Key
+	Mod ModMask
+}
+
+// VerifInput wraps a terminfo screen that was constructed exactly the way
+// NewTerminfoScreenFromTtyTerminfo constructs it, but never started (no tty,
+// no goroutines, no timers).
+type VerifInput struct {
+	t   *tScreen
+	buf bytes.Buffer
+}
+
+func verifScreen(ti *terminfo.Terminfo) (*tScreen, error) {
+	s, err := NewTerminfoScreenFromTtyTerminfo(nil, ti)
+	if err != nil {
+		return nil, err
+	}
+	return s.(*baseScreen).screenImpl.(*tScreen), nil
+}
+
+// VerifKeyTable returns a copy of the key table built for ti.
+func VerifKeyTable(ti *terminfo.Terminfo) (map[string]VerifKey, error) {
+	t, err := verifScreen(ti)
+	if err != nil {
+		return nil, err
+	}
+	m := make(map[string]VerifKey, len(t.keycodes))
+	for k, v := range t.keycodes {
+		m[k] = VerifKey{Key: v.key, Mod: v.mod}
+	}
+	return m, nil
+}
+
+// VerifNewInput builds an input decoder for ti using the named character
+// set and a w x h cell buffer (mouse coordinates are clipped to it).
+func VerifNewInput(ti *terminfo.Terminfo, charset string, w, h int) (*VerifInput, error) {
+	t, err := verifScreen(ti)
+	if err != nil {
+		return nil, err
+	}
+	t.charset = charset
+	enc := GetEncoding(charset)
+	if enc == nil {
+		return nil, ErrNoCharset
+	}
+	t.encoder = enc.NewEncoder()
+	t.decoder = enc.NewDecoder()
+	t.cells.Resize(w, h)
+	t.w, t.h = w, h
+	return &VerifInput{t: t}, nil
+}
+
+// Scan appends chunk to the pending input and runs the production
+// collectEventsFromInput over it.  It returns the decoded events and the
+// number of bytes still buffered.
+func (v *VerifInput) Scan(chunk []byte, expire bool) ([]Event, int) {
+	v.buf.Write(chunk)
+	evs := v.t.collectEventsFromInput(&v.buf, expire)
+	return evs, v.buf.Len()
+}
